@@ -224,6 +224,52 @@ func (r *rawR) scalar(v Val) string {
 
 // goSlice renders an IN list as one of the slice types gorm expands.
 func goSlice(x g, vs []Val, text bool) interface{} {
+	hasNull := false
+	for _, v := range vs {
+		hasNull = hasNull || v.Null
+	}
+	if hasNull {
+		// NULL elements: untyped nil, typed nil pointers, invalid sql.Null*
+		switch x.n(3) {
+		case 0:
+			out := make([]interface{}, len(vs))
+			for i, v := range vs {
+				out[i] = v.Go()
+			}
+			return out
+		case 1:
+			if text {
+				out := make([]*string, len(vs))
+				for i, v := range vs {
+					if !v.Null {
+						s := v.S
+						out[i] = &s
+					}
+				}
+				return out
+			}
+			out := make([]*int, len(vs))
+			for i, v := range vs {
+				if !v.Null {
+					n := v.I
+					out[i] = &n
+				}
+			}
+			return out
+		}
+		if text {
+			out := make([]sql.NullString, len(vs))
+			for i, v := range vs {
+				out[i] = sql.NullString{String: v.S, Valid: !v.Null}
+			}
+			return out
+		}
+		out := make([]sql.NullInt64, len(vs))
+		for i, v := range vs {
+			out[i] = sql.NullInt64{Int64: int64(v.I), Valid: !v.Null}
+		}
+		return out
+	}
 	switch x.n(3) {
 	case 0:
 		out := make([]interface{}, len(vs))
@@ -248,6 +294,9 @@ func goSlice(x g, vs []Val, text bool) interface{} {
 
 func (r *rawR) atom(n *Node) string {
 	c := r.qual + n.Col
+	if n.Col == SoftCol {
+		c = r.qual + SoftColName
+	}
 	switch n.Op {
 	case OpIsNull:
 		return c + r.ws() + r.kw("IS") + r.ws() + r.kw("NULL")
@@ -447,6 +496,9 @@ type clauseR struct {
 }
 
 func (r *clauseR) column(col string) (interface{}, string) {
+	if col == SoftCol {
+		col = SoftColName
+	}
 	switch r.n(3) {
 	case 0:
 		if r.qual != "" {
@@ -472,7 +524,12 @@ func (r *clauseR) leaf(n *Node) (clause.Expression, string) {
 	if r.qual != "" {
 		q = r.qual + "."
 	}
-	raw := RenderRaw(r.rt, n, ModeQ, r.pct(50), q)
+	mode := ModeQ
+	if r.pct(30) {
+		mode = ModeLit // the values are written into the Expr's SQL text
+		r.feats["clause:expr-leaf-literal"] = true
+	}
+	raw := RenderRaw(r.rt, n, mode, r.pct(50), q)
 	for f := range raw.Feats {
 		r.feats[f] = true
 	}
@@ -523,8 +580,17 @@ func (r *clauseR) expr(n *Node, top bool) (clause.Expression, string) {
 				return clause.IN{Column: c, Values: vals}, "IN{" + cd + "," + fmt.Sprint(vals) + "}"
 			}
 			sl := goSlice(r.g, n.Vs, IsText(n.Col))
+			switch sl.(type) {
+			case []int, []string, []interface{}:
+			default: // clause.Eq expands only its listed slice types
+				vals := make([]interface{}, len(n.Vs))
+				for i, v := range n.Vs {
+					vals[i] = v.Go()
+				}
+				sl = vals
+			}
 			r.feats["clause:eq-slice"] = true
-			return clause.Eq{Column: c, Value: sl}, fmt.Sprintf("Eq{%s,%T%v}", cd, sl, sl)
+			return clause.Eq{Column: c, Value: sl}, fmt.Sprintf("Eq{%s,%s}", cd, goString(sl))
 		}
 	case KNot:
 		k := n.Kids[0]
@@ -640,6 +706,30 @@ func goString(a interface{}) string {
 		}
 		sort.Strings(parts)
 		return "map[any]any{" + strings.Join(parts, ", ") + "}"
+	case []*int:
+		parts := make([]string, len(v))
+		for i, x := range v {
+			parts[i] = goString(x)
+		}
+		return "[]*int{" + strings.Join(parts, ",") + "}"
+	case []*string:
+		parts := make([]string, len(v))
+		for i, x := range v {
+			parts[i] = goString(x)
+		}
+		return "[]*string{" + strings.Join(parts, ",") + "}"
+	case []sql.NullInt64:
+		parts := make([]string, len(v))
+		for i, x := range v {
+			parts[i] = fmt.Sprintf("{%d %v}", x.Int64, x.Valid)
+		}
+		return "[]sql.NullInt64{" + strings.Join(parts, ",") + "}"
+	case []sql.NullString:
+		parts := make([]string, len(v))
+		for i, x := range v {
+			parts[i] = fmt.Sprintf("{%q %v}", x.String, x.Valid)
+		}
+		return "[]sql.NullString{" + strings.Join(parts, ",") + "}"
 	case StrList:
 		return fmt.Sprintf("StrList%q", []string(v))
 	case IntSum:
